@@ -1239,3 +1239,10 @@ func init() {
 		return nil
 	}
 }
+
+func init() {
+	// YAML text is not inspected by state code: opaque fixed bytes
+	externals["go.yaml.in/yaml/v4.Marshal"] = func(fr *frame, args []value) value {
+		return tuple{[]value{uint8('y'), uint8('a'), uint8('m'), uint8('l')}, iface{}}
+	}
+}
